@@ -22,7 +22,8 @@ def run(ctx):
         # sampling phases (BOBYQA/NEWUOA 2n+1 points, CRS / ISRES / ESCH populations) are only cut short by small budgets
         for nm in names:
             for rep in range(4 if ctx.thorough else (6 if nm in ("NLOPT_LN_BOBYQA", "NLOPT_LN_NEWUOA", "NLOPT_LN_NEWUOA_BOUND", "NLOPT_LN_COBYLA") else 1)):
-                base = problems.gen_problem(rng, A, alg_name=nm, with_constraints=False, box="finite", allow_max=(rep == 2))
+                base = problems.gen_problem(rng, A, alg_name=nm, with_constraints=False, box="finite", allow_max=(rep == 2),
+                                            n=(3 if nm == "NLOPT_LN_PRAXIS" else None))
                 for k in ("stopval", "ftol_rel", "xtol_rel", "xtol_abs", "maxtime", "clockq", "clock0"):
                     base.pop(k, None)
                 base["obj"] = rng.choice([0, 1, 3])
@@ -39,7 +40,6 @@ def run(ctx):
                 if nm == "NLOPT_LN_PRAXIS":
                     # PRAXIS takes extra random steps only in its ill-conditioned mode: non-smooth valley, longer budgets
                     base["obj"] = rng.choice([2, 4, 2])
-                    base["n"] = 3 if len(base["lb"]) >= 3 else base["n"]
                     top = 1200 if ctx.thorough else 500
                 for N in range(1, top + 1):
                     q = dict(base)
